@@ -1,9 +1,673 @@
 package props
 
-import "verif/internal/core"
+import (
+	"fmt"
+	"io"
+	"math/rand"
+	"net"
+	"path/filepath"
+	"sort"
+	"sync"
+	"sync/atomic"
+	"time"
 
-// C16 — stub, replaced by the real check.
+	"verif/internal/core"
+)
+
+// c16Bound is T of the bounded restatement: end-of-stream at the far peer
+// and release of the bridge's sockets within T. Observed latencies on a tree
+// that propagates closes are a few milliseconds.
+const c16Bound = 10 * time.Second
+
+// c16Case is one bridged connection history.
+type c16Case struct {
+	ID     int    `json:"id"`
+	Closer string `json:"closer"`     // client | server: the TCP peer that closes first
+	Kind   string `json:"close_kind"` // full | half-then-full (CloseWrite, observed only, then Close, judged)
+	Flight string `json:"in_flight"`  // virgin | idle | same | opposite | both
+	N      int    `json:"n"`          // bytes the closer writes right before closing (same, both) / exchanged earlier (idle)
+	Chunk  int    `json:"chunk"`      // write size of the other peer's continuous stream (opposite, both)
+	Drain  bool   `json:"drain"`      // the closer reads the other peer's stream until it closes (else it never reads)
+	Phase  string `json:"phase"`      // matrix | churn | confirm
+	Class  string `json:"class"`
+}
+
+type c16Result struct {
+	Case           c16Case `json:"case"`
+	EOS            string  `json:"end_of_stream_seen_by_other_peer"` // "", "eof", "error: ..."
+	LatencyMs      float64 `json:"eos_latency_ms"`
+	Missed         bool    `json:"missed_bound"`
+	PreCloseSent   int64   `json:"bytes_sent_before_close"`
+	PreCloseRecv   int64   `json:"bytes_of_those_received"`
+	Altered        bool    `json:"received_bytes_altered,omitempty"`
+	HalfObserved   string  `json:"after_half_close,omitempty"` // "eos within 2s" | "no eos within 2s"
+	OtherWrote     int64   `json:"bytes_other_peer_wrote"`
+	Harness        string  `json:"harness_problem,omitempty"`
+	FrontSockets   int     `json:"frontend_sockets_after,omitempty"`
+	BackSockets    int     `json:"backend_sockets_after,omitempty"`
+	LeakAfterBound bool    `json:"sockets_not_released,omitempty"`
+}
+
+func (c *c16Case) sig() string { return "C16:eof-not-propagated:" + c.Closer + "-closes-first" }
+
+// c16Peer is the reading side of one harness TCP end.
+type c16Peer struct {
+	conn *net.TCPConn
+	v    *bridgeVerifier
+
+	mu       sync.Mutex
+	recv     int64
+	lastByte time.Time
+	eos      string
+	eosAt    time.Time
+	stop     atomic.Bool
+	done     chan struct{}
+}
+
+// c16NewPeer wraps one harness end; with read=false the end never reads.
+func c16NewPeer(conn *net.TCPConn, expect *bridgeStream, read bool) *c16Peer {
+	p := &c16Peer{conn: conn, v: bridgeNewVerifier(expect), done: make(chan struct{})}
+	if read {
+		go p.readLoop()
+	} else {
+		close(p.done)
+	}
+	return p
+}
+
+// readLoop reads until end-of-stream; it polls with short deadlines so that
+// it can never block for good.
+func (p *c16Peer) readLoop() {
+	defer close(p.done)
+	buf := make([]byte, 64<<10)
+	for {
+		if p.stop.Load() {
+			return
+		}
+		p.conn.SetReadDeadline(time.Now().Add(100 * time.Millisecond))
+		n, err := p.conn.Read(buf)
+		now := time.Now()
+		if n > 0 {
+			p.v.Check(buf[:n])
+			p.mu.Lock()
+			p.recv += int64(n)
+			p.lastByte = now
+			p.mu.Unlock()
+		}
+		if err == nil {
+			continue
+		}
+		if bridgeIsTimeout(err) {
+			if p.stop.Load() {
+				return
+			}
+			continue
+		}
+		if p.stop.Load() {
+			return // our own Close
+		}
+		p.mu.Lock()
+		if err == io.EOF {
+			p.eos = "eof"
+		} else {
+			p.eos = "error: " + err.Error()
+		}
+		p.eosAt = now
+		p.mu.Unlock()
+		return
+	}
+}
+
+func (p *c16Peer) state() (recv int64, last time.Time, eos string, eosAt time.Time) {
+	p.mu.Lock()
+	defer p.mu.Unlock()
+	return p.recv, p.lastByte, p.eos, p.eosAt
+}
+
+// waitRecv waits (bounded) until n bytes have arrived.
+func (p *c16Peer) waitRecv(n int64, d time.Duration) bool {
+	deadline := time.Now().Add(d)
+	for time.Now().Before(deadline) {
+		if r, _, eos, _ := p.state(); r >= n {
+			return true
+		} else if eos != "" {
+			return false
+		}
+		time.Sleep(2 * time.Millisecond)
+	}
+	return false
+}
+
+// c16Write writes all of the stream's n bytes with a bounded wait.
+func c16Write(conn *net.TCPConn, st *bridgeStream, n int64, d time.Duration) (int64, error) {
+	buf := make([]byte, 64<<10)
+	var sent int64
+	conn.SetWriteDeadline(time.Now().Add(d))
+	for sent < n {
+		k := int64(len(buf))
+		if n-sent < k {
+			k = n - sent
+		}
+		st.Next(buf[:k])
+		w, err := conn.Write(buf[:k])
+		sent += int64(w)
+		if err != nil {
+			return sent, err
+		}
+	}
+	return sent, nil
+}
+
+type c16Engine struct {
+	r    *core.Run
+	topo *bridgeTopo
+	srv  *bridgeTCPServer
+
+	connMu   sync.Mutex // one connection is being established at a time: accept order = connect order
+	accepted chan *net.TCPConn
+
+	peakF, peakB atomic.Int64
+	stopSampler  chan struct{}
+}
+
+func c16NewEngine(r *core.Run, bins bridgeBins, suffix string) (*c16Engine, error) {
+	e := &c16Engine{r: r, accepted: make(chan *net.TCPConn, 64), stopSampler: make(chan struct{})}
+	srv, err := bridgeNewTCPServer(func(c *net.TCPConn, _ int) { e.accepted <- c })
+	if err != nil {
+		return nil, err
+	}
+	e.srv = srv
+	e.topo, err = bridgeStartTopo(r, bins, suffix, srv.Port)
+	if err != nil {
+		srv.Close()
+		return nil, err
+	}
+	go func() {
+		for {
+			select {
+			case <-e.stopSampler:
+				return
+			case <-time.After(50 * time.Millisecond):
+			}
+			f, b := e.topo.Census()
+			for f64 := int64(f); f64 > e.peakF.Load(); {
+				e.peakF.Store(f64)
+			}
+			for b64 := int64(b); b64 > e.peakB.Load(); {
+				e.peakB.Store(b64)
+			}
+		}
+	}()
+	return e, nil
+}
+
+func (e *c16Engine) close() {
+	close(e.stopSampler)
+	e.srv.Close()
+	e.topo.Kill()
+}
+
+// connect opens one bridged connection and returns both harness ends.
+func (e *c16Engine) connect() (cli, srv *net.TCPConn, err error) {
+	e.connMu.Lock()
+	defer e.connMu.Unlock()
+	for len(e.accepted) > 0 { // nothing else connects to this port; be safe anyway
+		(<-e.accepted).Close()
+	}
+	c, err := net.DialTimeout("tcp", e.topo.FrontAddr, 10*time.Second)
+	if err != nil {
+		return nil, nil, err
+	}
+	select {
+	case s := <-e.accepted:
+		return c.(*net.TCPConn), s, nil
+	case <-time.After(15 * time.Second):
+		c.Close()
+		return nil, nil, fmt.Errorf("the bridge did not connect to the far TCP end within 15s")
+	}
+}
+
+// run plays one connection history and judges the far peer's end-of-stream.
+func (e *c16Engine) run(cs c16Case) (res c16Result) {
+	res.Case = cs
+	cli, srv, err := e.connect()
+	if err != nil {
+		res.Harness = err.Error()
+		return res
+	}
+	x, y := cli, srv // x closes first
+	if cs.Closer == "server" {
+		x, y = srv, cli
+	}
+	seed := e.r.Seed
+	const endless = int64(1) << 40
+	xTotal := int64(cs.N)
+	streaming := cs.Flight == "opposite" || cs.Flight == "both"
+	py := c16NewPeer(y, bridgeNewStream(seed, cs.ID, 'x', xTotal), true) // y reads what x wrote
+	px := c16NewPeer(x, bridgeNewStream(seed, cs.ID, 'y', endless), !streaming || cs.Drain)
+	var yWrote atomic.Int64
+	var yStop atomic.Bool
+	yDone := make(chan struct{})
+	finish := func() {
+		yStop.Store(true)
+		px.stop.Store(true)
+		py.stop.Store(true)
+		x.Close()
+		y.Close()
+		<-px.done
+		<-py.done
+		<-yDone
+		res.OtherWrote = yWrote.Load()
+	}
+
+	xs := bridgeNewStream(seed, cs.ID, 'x', xTotal)
+	ys := bridgeNewStream(seed, cs.ID, 'y', endless)
+	if streaming {
+		go func() {
+			defer close(yDone)
+			buf := make([]byte, cs.Chunk)
+			for !yStop.Load() && yWrote.Load() < 16<<20 {
+				ys.Next(buf)
+				off := 0
+				for off < len(buf) && !yStop.Load() {
+					y.SetWriteDeadline(time.Now().Add(200 * time.Millisecond))
+					n, err := y.Write(buf[off:])
+					off += n
+					yWrote.Add(int64(n))
+					if err != nil && !bridgeIsTimeout(err) {
+						return
+					}
+				}
+			}
+		}()
+	} else {
+		close(yDone)
+	}
+
+	// ---- before the close
+	switch cs.Flight {
+	case "idle":
+		if n, err := c16Write(x, xs, xTotal, c16Bound); err != nil {
+			res.Harness = fmt.Sprintf("pre-close exchange: write %d/%d: %v", n, xTotal, err)
+		} else if !py.waitRecv(xTotal, c16Bound) {
+			res.Harness = "pre-close exchange did not reach the other peer"
+		} else if n, err := c16Write(y, ys, int64(cs.N), c16Bound); err != nil {
+			res.Harness = fmt.Sprintf("pre-close exchange: reply write %d/%d: %v", n, cs.N, err)
+		} else if !px.waitRecv(int64(cs.N), c16Bound) {
+			res.Harness = "pre-close reply did not reach the closing peer"
+		}
+		res.PreCloseSent = xTotal
+	case "opposite", "both":
+		// let the other peer's stream get going: the closer has read 256 KiB of it, or (closer not
+		// reading) the pipe is full / 8 MiB are under way
+		deadline := time.Now().Add(c16Bound)
+		last, lastChange := int64(-1), time.Now()
+		for time.Now().Before(deadline) {
+			if cs.Drain {
+				if r, _, _, _ := px.state(); r >= 256<<10 {
+					break
+				}
+			} else {
+				w := yWrote.Load()
+				if w != last {
+					last, lastChange = w, time.Now()
+				} else if w > 0 && time.Since(lastChange) > 150*time.Millisecond {
+					break
+				}
+				if w >= 8<<20 {
+					break
+				}
+			}
+			time.Sleep(2 * time.Millisecond)
+		}
+	}
+	if res.Harness != "" {
+		finish()
+		return res
+	}
+	if cs.Flight == "same" || cs.Flight == "both" {
+		n, err := c16Write(x, xs, xTotal, c16Bound)
+		res.PreCloseSent = n
+		if err != nil {
+			res.Harness = fmt.Sprintf("closer could not write its %d bytes before closing: %d written: %v", xTotal, n, err)
+			finish()
+			return res
+		}
+	}
+	if _, _, eos, _ := py.state(); eos != "" {
+		res.Harness = "the other peer's connection ended before the first peer closed: " + eos
+		res.EOS = eos
+		finish()
+		return res
+	}
+
+	// ---- the close
+	tClose := time.Now()
+	if cs.Kind == "half-then-full" {
+		x.CloseWrite()
+		res.HalfObserved = "no eos within 2s"
+		for time.Since(tClose) < 2*time.Second {
+			if _, _, eos, _ := py.state(); eos != "" {
+				res.HalfObserved = "eos within 2s"
+				break
+			}
+			time.Sleep(2 * time.Millisecond)
+		}
+		tClose = time.Now()
+	}
+	px.stop.Store(true)
+	x.Close()
+
+	// ---- the other peer must now see end-of-stream within T of (close, last byte of pre-close data)
+	for {
+		recv, last, eos, eosAt := py.state()
+		base := tClose
+		if last.After(base) {
+			base = last
+		}
+		if eos != "" {
+			res.EOS = eos
+			if eosAt.After(base) {
+				res.LatencyMs = float64(eosAt.Sub(base).Microseconds()) / 1000
+			}
+			res.PreCloseRecv = recv
+			break
+		}
+		if time.Since(base) > c16Bound {
+			res.Missed = true
+			res.PreCloseRecv = recv
+			break
+		}
+		time.Sleep(2 * time.Millisecond)
+	}
+	res.Altered = py.v.BadOffset >= 0
+	finish()
+	return res
+}
+
+// settle waits (bounded by T after the last harness end was closed) for the
+// bridge processes to release their sockets.
+func (e *c16Engine) settle() (f, b int, leaked bool) {
+	deadline := time.Now().Add(c16Bound)
+	for {
+		f, b = e.topo.Census()
+		if f >= 0 && b >= 0 && f <= e.topo.FrontBase && b <= e.topo.BackBase {
+			return f, b, false
+		}
+		if time.Now().After(deadline) {
+			return f, b, true
+		}
+		time.Sleep(50 * time.Millisecond)
+	}
+}
+
+func c16Class(c *c16Case) string {
+	s := fmt.Sprintf("%s|%s-closes-first|%s|%s", c.Phase, c.Closer, c.Kind, c.Flight)
+	switch c.Flight {
+	case "idle", "same":
+		s += "|n:" + sizeClass(c.N)
+	case "opposite":
+		s += fmt.Sprintf("|chunk:%d|drain:%v", c.Chunk, c.Drain)
+	case "both":
+		s += fmt.Sprintf("|n:%s|chunk:%d|drain:%v", sizeClass(c.N), c.Chunk, c.Drain)
+	}
+	return s
+}
+
+// c16Matrix is {client, server closes first} x {idle, same, opposite, both} x sizes, full and half close.
+func c16Matrix(rng *rand.Rand, rep int) []c16Case {
+	jit := func(n int) int {
+		if rep == 0 || n <= 1 {
+			return n
+		}
+		return n + rng.Intn(n/2+2)
+	}
+	var out []c16Case
+	for _, who := range []string{"client", "server"} {
+		add := func(kind, flight string, n, chunk int, drain bool) {
+			out = append(out, c16Case{Closer: who, Kind: kind, Flight: flight, N: n, Chunk: chunk, Drain: drain, Phase: "matrix"})
+		}
+		add("full", "virgin", 0, 0, false)
+		add("full", "idle", jit(1), 0, false)
+		add("full", "idle", jit(65536), 0, false)
+		for _, n := range []int{1, 4096, 262145, 2 << 20} {
+			add("full", "same", jit(n), 0, false)
+		}
+		add("full", "opposite", 0, jit(1024), true)
+		add("full", "opposite", 0, jit(65536), true)
+		add("full", "opposite", 0, jit(1024), false)
+		add("full", "opposite", 0, jit(65536), false)
+		add("full", "both", jit(1), jit(4096), true)
+		add("full", "both", jit(4096), jit(65536), false)
+		add("full", "both", jit(262145), jit(4096), true)
+		add("half-then-full", "idle", jit(100), 0, false)
+		add("half-then-full", "same", jit(1), 0, false)
+		add("half-then-full", "same", jit(70000), 0, false)
+		add("half-then-full", "same", jit(1<<20), 0, false)
+		add("half-then-full", "both", jit(4096), jit(16384), true)
+	}
+	return out
+}
+
+func c16Churn(rng *rand.Rand, n int) []c16Case {
+	var out []c16Case
+	flights := []string{"virgin", "idle", "same", "same", "opposite", "both"}
+	for i := 0; i < n; i++ {
+		c := c16Case{Closer: []string{"client", "server"}[rng.Intn(2)], Kind: "full", Flight: flights[rng.Intn(len(flights))], Phase: "churn"}
+		switch c.Flight {
+		case "idle", "same":
+			c.N = []int{1, 17, 1000, 4097, 70000, 300000}[rng.Intn(6)]
+		case "opposite":
+			c.Chunk, c.Drain = []int{512, 4096, 32768}[rng.Intn(3)], rng.Intn(2) == 0
+		case "both":
+			c.N, c.Chunk, c.Drain = []int{1, 1000, 70000}[rng.Intn(3)], []int{512, 4096, 32768}[rng.Intn(3)], rng.Intn(2) == 0
+		}
+		out = append(out, c)
+	}
+	return out
+}
+
+// C16 — closing one end of a bridged TCP connection closes the other.
 func C16(r *core.Run) {
-	r.Broken("check not implemented yet")
-	r.Finish(1)
+	r.SetRule("harness TCP client -> real tcp-bridge-frontend -> real tcp-bridge-backend -> harness TCP server; per connection one peer closes first ({client, server} x {never used, idle after an exchange, its own data in flight, the other peer's data in flight, both} x sizes; full close, and CloseWrite followed by close); the other peer must read end-of-stream within T=10s of (close, last byte of the data sent before the close); with both peers gone each bridge process' socket count (/proc/<pid>/fd) must be back at its idle baseline within T; a missed bound is re-run alone on a fresh pair of bridge processes before it is reported; class = (phase, who closes first, close kind, what is in flight, sizes)")
+	r.Assume("a half close (CloseWrite) is only observed; the verdict is taken after the same peer has fully closed")
+	r.Assume("completeness of the data sent before the close is judged only when the closing peer had nothing unread (never used / idle / own data in flight): closing a TCP socket with unread data resets the connection and may discard the closer's own data even without a bridge")
+	bins := bridgeBuild(r)
+	e, err := c16NewEngine(r, bins, "")
+	if err != nil {
+		r.Broken(err.Error())
+		r.Finish(1)
+	}
+	r.Set("idle_sockets_frontend", e.topo.FrontBase)
+	r.Set("idle_sockets_backend", e.topo.BackBase)
+
+	rng := r.Rand("c16")
+	var cases []c16Case
+	for rep := 0; rep < r.Pick(1, 5); rep++ {
+		cases = append(cases, c16Matrix(rng, rep)...)
+	}
+	nMatrix := len(cases)
+	cases = append(cases, c16Churn(rng, r.Pick(40, 200))...)
+	for i := range cases {
+		cases[i].ID = i
+		cases[i].Class = c16Class(&cases[i])
+	}
+	results := make([]c16Result, len(cases))
+	var wg sync.WaitGroup
+	var live, maxLive atomic.Int64
+	start := func(i int) {
+		wg.Add(1)
+		go func() {
+			defer wg.Done()
+			if n := live.Add(1); n > maxLive.Load() {
+				maxLive.Store(n)
+			}
+			results[i] = e.run(cases[i])
+			live.Add(-1)
+		}()
+	}
+	// matrix: all histories side by side (connection set-up is serialised by the engine)
+	for i := 0; i < nMatrix; i++ {
+		start(i)
+	}
+	wg.Wait()
+	fM, bM := e.topo.Census()
+	leakM := false
+	// churn: connections opened and closed over time
+	for i := nMatrix; i < len(cases); i++ {
+		start(i)
+		time.Sleep(20 * time.Millisecond)
+	}
+	wg.Wait()
+	fC, bC, leakC := e.settle()
+	r.Set("sockets_right_after_matrix(not_settled)", map[string]int{"frontend": fM, "backend": bM})
+	r.Set("sockets_after_all_peers_gone_for_T", map[string]int{"frontend": fC, "backend": bC})
+	r.Max("peak_sockets_frontend", int(e.peakF.Load()))
+	r.Max("peak_sockets_backend", int(e.peakB.Load()))
+	r.Max("max_concurrent_bridged_connections", int(maxLive.Load()))
+
+	// ---- judge
+	type tally struct{ n, eos, eof, missed int }
+	byClass := map[string]*tally{}
+	var lat []float64
+	cands := map[string][]int{} // signature -> case indexes that missed the bound
+	sampled := map[string]bool{}
+	for i, res := range results {
+		cs := cases[i]
+		r.Case(cs.Class)
+		key := fmt.Sprintf("%s-closes-first/%s/%s", cs.Closer, cs.Kind, cs.Flight)
+		t := byClass[key]
+		if t == nil {
+			t = &tally{}
+			byClass[key] = t
+		}
+		t.n++
+		if res.Harness != "" {
+			r.Inconclusive(fmt.Sprintf("case %d (%s): %s", cs.ID, cs.Class, res.Harness))
+			continue
+		}
+		r.Add("bytes_sent_before_close", int(res.PreCloseSent))
+		r.Add("bytes_streamed_by_other_peer", int(res.OtherWrote))
+		if res.HalfObserved != "" {
+			r.Add("half_close:"+res.HalfObserved, 1)
+		}
+		if res.Missed {
+			t.missed++
+			cands[cs.sig()] = append(cands[cs.sig()], i)
+			continue
+		}
+		t.eos++
+		if res.EOS == "eof" {
+			t.eof++
+		}
+		lat = append(lat, res.LatencyMs)
+		strict := cs.Flight == "virgin" || cs.Flight == "idle" || cs.Flight == "same"
+		want := res.PreCloseSent
+		if strict && (res.PreCloseRecv != want || res.Altered) {
+			r.Violate("C16:data-before-close-lost:"+cs.Closer+"-closes-first",
+				fmt.Sprintf("case %d (%s): the other peer saw end-of-stream (%s) after %d of the %d bytes written before the close (altered=%v)", cs.ID, cs.Class, res.EOS, res.PreCloseRecv, want, res.Altered), cs, res)
+		} else if !strict && res.PreCloseRecv != want {
+			r.Add("pre_close_data_incomplete_after_reset_prone_close(observed_only)", 1)
+		}
+		if !sampled[key] && len(sampled) < 4 {
+			sampled[key] = true
+			r.Sample(res)
+		}
+	}
+	if len(lat) > 0 {
+		sort.Float64s(lat)
+		r.Set("eos_latency_ms", map[string]float64{"min": lat[0], "median": lat[len(lat)/2], "max": lat[len(lat)-1]})
+	}
+	r.Set("eos_observed_cases", len(lat))
+	tl := map[string]string{}
+	for k, t := range byClass {
+		tl[k] = fmt.Sprintf("eos %d/%d (clean eof %d), missed %d", t.eos, t.n, t.eof, t.missed)
+	}
+	r.Set("end_of_stream_by_class", tl)
+
+	// ---- confirm missed bounds alone, each on a fresh pair of bridge processes, side by side
+	type confirm struct {
+		sig     string
+		cs      c16Case
+		res     c16Result
+		err     error
+		leakRun bool
+	}
+	var confs []*confirm
+	sigs := make([]string, 0, len(cands))
+	for s := range cands {
+		sigs = append(sigs, s)
+	}
+	sort.Strings(sigs)
+	for _, s := range sigs {
+		confs = append(confs, &confirm{sig: s, cs: cases[cands[s][0]]})
+	}
+	if leakM || leakC {
+		cf := &confirm{sig: "C16:sockets-leaked", leakRun: true, cs: c16Case{Closer: "client", Kind: "full", Flight: "same", N: 4096}}
+		if len(sigs) > 0 {
+			cf.cs = cases[cands[sigs[0]][0]]
+		}
+		confs = append(confs, cf)
+	}
+	procs := []*core.Proc{e.topo.Front, e.topo.Back}
+	var pmu sync.Mutex
+	var cwg sync.WaitGroup
+	for k, cf := range confs {
+		cwg.Add(1)
+		go func(k int, cf *confirm) {
+			defer cwg.Done()
+			ce, err := c16NewEngine(r, bins, fmt.Sprintf("-confirm%d", k))
+			if err != nil {
+				cf.err = err
+				return
+			}
+			defer ce.close()
+			pmu.Lock()
+			procs = append(procs, ce.topo.Front, ce.topo.Back)
+			pmu.Unlock()
+			cs := cf.cs
+			cs.Phase = "confirm"
+			cf.res = ce.run(cs)
+			if cf.leakRun {
+				cf.res.FrontSockets, cf.res.BackSockets, cf.res.LeakAfterBound = ce.settle()
+			}
+			judgeProcs(r, true, ce.topo.Front, ce.topo.Back)
+		}(k, cf)
+	}
+	cwg.Wait()
+	for _, cf := range confs {
+		r.Add("solo_confirmation_runs", 1)
+		switch {
+		case cf.err != nil:
+			r.Broken("confirmation topology: " + cf.err.Error())
+		case cf.res.Harness != "":
+			r.Inconclusive(fmt.Sprintf("%s: solo re-run of case %d undecided: %s", cf.sig, cf.cs.ID, cf.res.Harness))
+		case cf.leakRun:
+			detail := map[string]interface{}{
+				"after_matrix": map[string]int{"frontend": fM, "backend": bM}, "after_churn": map[string]int{"frontend": fC, "backend": bC},
+				"idle": map[string]int{"frontend": e.topo.FrontBase, "backend": e.topo.BackBase}, "solo": cf.res}
+			if cf.res.LeakAfterBound {
+				r.Violate("C16:sockets-leaked", fmt.Sprintf("with every TCP peer gone for %s the bridge still holds sockets: frontend %d (idle %d), backend %d (idle %d) after %d connections; reproduced alone on fresh processes with one connection (%s): frontend %d, backend %d",
+					c16Bound, fC, e.topo.FrontBase, bC, e.topo.BackBase, len(cases), c16Class(&cf.cs), cf.res.FrontSockets, cf.res.BackSockets), cf.cs, detail)
+			} else {
+				r.Inconclusive(fmt.Sprintf("sockets not released after the run (frontend %d, backend %d) but released on the solo re-run", fC, bC))
+			}
+		case cf.res.Missed:
+			for _, i := range cands[cf.sig] {
+				cs, res := cases[i], results[i]
+				r.Violate(cf.sig, fmt.Sprintf("case %d (%s): %s closed at a point where it had written %d bytes; the other peer received %d of them and then no end-of-stream for %s (bound T); reproduced when case %d was re-run alone on fresh bridge processes",
+					cs.ID, cs.Class, cs.Closer, res.PreCloseSent, res.PreCloseRecv, c16Bound, cf.cs.ID), cs, map[string]interface{}{"first": res, "solo": cf.res})
+			}
+		default:
+			for _, i := range cands[cf.sig] {
+				r.Inconclusive(fmt.Sprintf("case %d (%s) missed the bound, the solo re-run of case %d did not (eos after %.1f ms)", i, cases[i].Class, cf.cs.ID, cf.res.LatencyMs))
+			}
+		}
+	}
+
+	judgeProcs(r, true, e.topo.Front, e.topo.Back)
+	e.close()
+	_ = procs
+	r.JudgeRaces(core.ParseRaceLogs(filepath.Join(r.WorkDir, "race-")))
+	r.Finish(r.Pick(60, 300))
 }
